@@ -223,7 +223,7 @@ def path_class(p, root, targets=(), sources=()):
         if base.startswith("log") or "/log" in n:
             return "log"
         return "redo-other"
-    if base.endswith(".redo.tmp"):
+    if base.endswith(_tmpsfx()):
         return "tmp"
     if "(deleted)" in base or n.startswith("$R/home"):
         return "stdout-tmp"
@@ -380,8 +380,13 @@ def held_locks(lockfile: Path, upto=1000):
     return out
 
 
+def _tmpsfx():
+    from . import common
+    return common.tmp_suffix()
+
+
 def leftover_tmps(projdir: Path):
-    return sorted(str(p.relative_to(projdir)) for p in projdir.rglob("*.redo.tmp") if ".redo/" not in str(p))
+    return sorted(str(p.relative_to(projdir)) for p in projdir.rglob("*" + _tmpsfx()) if ".redo/" not in str(p))
 
 
 # ---------------------------------------------------------------------------
